@@ -222,9 +222,9 @@ def case_exception_found(sObjectValue, self):
 
 
 def check_for_exception(sObjectValue, self, oToi, iIndex, iLine):
-    iIndex = self.case_exceptions_lower.index(sObjectValue.lower())
-    if sObjectValue != self.case_exceptions[iIndex]:
-        return create_case_violation(sObjectValue, self.case_exceptions[iIndex], oToi, iIndex, iLine)
+    iException = self.case_exceptions_lower.index(sObjectValue.lower())
+    if sObjectValue != self.case_exceptions[iException]:
+        return create_case_violation(sObjectValue, self.case_exceptions[iException], oToi, iIndex, iLine)
 
 
 def does_not_contain_any_alpha_characters(sObjectValue):
